@@ -19,6 +19,7 @@ from ..runner import Violation, sha
 
 ID = "C11"
 LEVEL = "exploration"
+STUCK_S = 240  # a single case may legitimately take this long (seconds) before the runner calls it stuck
 WORKERS = 4
 RULE = (
     "Hypothesis rule-based state machine over one long-lived process: requests are drawn from the repository's cases, "
